@@ -11,7 +11,12 @@ COMMON = dict(units=U, fp=[(r"getc", ["h_getc"])], stubs=["libc.c", "pathmodel.c
 
 def queries(tier):
     n = 3 if tier == "quick" else 5
-    return [Q("format_pre_total", "C08/pre.c", harness_defines={"MODE": 1, "N": n}, unwind_default=n + 3,
+    real = ["mptcore/config/%s.c" % f for f in "path_add path_addchar path_valid path_fini".split()] + ARRAY_UNITS
+    step = Q("path_step_real", "C08/pathstep.c", units=real, unwind_default=70, fp=BUF_FP, flags=["--memory-leak-check", "--max-field-sensitivity-array-size", "400"],
+             stubs=["libc.c", "malloc_pages.c", "libc_loops.c", "no_traits.c"], unwind={"memcpy": 70, "memset": 70, "memmove": 70, "memchr": 70},
+             bounds="real path storage: one mpt_path_add / mpt_path_addchar with the stored data at 62..64 of 64 capacity bytes (growth/relocation included), 0..2 post characters",
+             outside="other capacities; shared/immutable path buffers; binary separator mode")
+    return [step, Q("format_pre_total", "C08/pre.c", harness_defines={"MODE": 1, "N": n}, unwind_default=n + 3,
               unwind={"memchr": 6, "verif_pm_add": 34},
               bounds="one mpt_parse_format_pre call on %d fully symbolic input bytes (all 256 values), empty initial path" % n,
               outside="inputs above %d bytes per call; non-empty initial path; 'enc'/'sep' styles; the mpt_parse_config loop; names/values beyond the 24-byte storage" % n,
